@@ -82,6 +82,18 @@ CHECKS = {
         "Trusted: the abstract mesh as the expected faces; vlib/sphere.py position equality; xarray/netCDF4 for file I/O.",
         "DESIGN.md section 6, C07",
     ),
+    "C09": (
+        "property-based testing (Hypothesis): set-based reference selection + geometric data matching + differential against a freshly built grid, over histories and thread counts",
+        "Exploration: source grids (topology-built or MPAS-like with their own edge tables) x a drawn set of derived quantities materialised first x one "
+        "selection (isel by face/node/edge indices in every index form; bounding boxes incl. antimeridian-spanning ones planted around nodes on "
+        "lon = +-180; bounding circles; k nearest neighbours for all element kinds; constant-latitude cross-sections incl. a node's own latitude) x "
+        "optional face/node/edge-centred data of rank 1-3, through the grid or the data array x numba thread count 1/2/4/16. The selected faces must be "
+        "exactly the reference selection (incidence sets and my own spherical distances), without duplicates, with the corner positions of the recorded "
+        "source faces; sliced data must sit on the same physical elements (matched by position); edge/face/node connectivity, corner counts, Cartesian "
+        "coordinates, centres, areas and edge centres of the result must equal those of a grid freshly built from the result's own faces.",
+        "Trusted: vlib/refmodel.py, vlib/sphere.py; fresh grids as judged by C02-C05; thread interleavings are not controlled, only the thread count.",
+        "DESIGN.md section 6, C09",
+    ),
     "C10": (
         "property-based testing (Hypothesis): generated operation programs run in lock-step against plain xarray (differential oracle) + grid-attachment invariants",
         "Exploration: programs of 1-6 operations drawn from a catalogue of ~60 xarray operations (arithmetic, comparisons, numpy ufuncs, where/clip/"
